@@ -2,6 +2,12 @@ use crate::chess::position::Position;
 use std::time::Instant;
 
 pub fn split(pos: &mut Position, depth: u8) {
+    // Depth 0 has no moves to split over: the position itself is the only node
+    if depth == 0 {
+        println!("nodes 1");
+        return;
+    }
+
     let moves = pos.legal_moves();
     let mut total = 0u64;
 
